@@ -1,14 +1,16 @@
 import RossModel.Generated.Decoders
 import RossModel.Lemmas.Applies
 /-!
-# Fourteen event decoders as translated from the source text
+# Fifteen event decoders as translated from the source text
 
 `RossModel/Generated/Decoders.lean` is written by `bin/extract` (`bin/rust2lean.py`, `DecTranslator`) from
 `src/event/*.rs` on every run: `Src.decode_<kind>` is a statement-by-statement translation of that kind's
 `try_from_packet` — the guard chain in source order, every slice / index / `try_into().unwrap()` as a primitive of
 `Spec/SrcPrims.lean` that **panics exactly when the Rust expression does**, the sub-codec calls
 `BcmValue::deserialize(&packet.data[n..])?` / `RelayValue::deserialize(..)?` as the model's `BcmValue.de` / `RelayValue.de`.
-(The data and message decoders — a copy loop, a `transmute_copy` — are outside the translated subset.)
+The data decoder's copy loop `let mut v = vec![0; n]; for i in 0..n { v[i] = packet.data[i + 6]; }` is the primitive
+`Prim.copyFrom`, which panics when some `i + 6` is not an index. (The message decoder — a `transmute_copy` — is outside the
+translated subset.)
 
 For every packet each translated decoder accepts exactly what the model's `decode` accepts, with the same value, and
 never panics (`src_decode_*`). When the source keeps the model's guard order the two are equal outright; a decoder whose
@@ -25,19 +27,23 @@ def DecAgrees (k : Kind) (a : Res CErr Event) (p : Packet) : Prop :=
 theorem DecAgrees.of_eq {k : Kind} {a : Res CErr Event} {p : Packet} (h : a = decode k p) : DecAgrees k a p := by
   subst h; exact ⟨fun _ => Iff.rfl, decode_no_panic k p⟩
 
+/-- a copy loop over exactly the rest of the data copies the rest -/
+theorem take_drop_all (d : List UInt8) (k n : Nat) (h : d.length = n + k) : (d.drop k).take n = d.drop k := by
+  apply List.take_of_length_le; simp; omega
+
 macro "dec_unfold" f:ident : tactic =>
-  `(tactic| simp only [$f:ident, decode, preamble, decodeFields, Prim.be16At, Prim.be32At, Prim.idx, Prim.tailFrom, rd16, rd32])
+  `(tactic| simp only [$f:ident, decode, preamble, decodeFields, Prim.be16At, Prim.be32At, Prim.idx, Prim.tailFrom, Prim.copyFrom, rd16, rd32])
 
 macro "dec_cases" k:term:max p:ident : tactic =>
   `(tactic| (by_cases h : sizeOk $k ($p).data.length = true
              · have h' := h
                simp only [sizeOk, beq_iff_eq, decide_eq_true_eq] at h'
                simp (disch := omega) [h, h', rd_eq, Res.bind, bind, pure, Kind.code, if_pos, if_neg]
-               first | done | ((repeat' split) <;> simp_all <;> (try omega))
+               first | done | ((repeat' split) <;> simp_all <;> (first | omega | (apply take_drop_all; omega) | skip))
              · have h' := h
                simp only [sizeOk, beq_iff_eq, decide_eq_true_eq] at h'
                simp (disch := omega) [h, h', Res.bind, bind, pure, Kind.code, if_pos, if_neg]
-               first | done | ((repeat' split) <;> simp_all <;> (try omega))))
+               first | done | ((repeat' split) <;> simp_all <;> (first | omega | (apply take_drop_all; omega) | skip))))
 
 macro "dec_agree" f:ident k:term : tactic =>
   `(tactic| first
@@ -49,6 +55,7 @@ theorem src_decode_bootloaderHello : ∀ p, DecAgrees .bootloaderHello (Src.deco
 theorem src_decode_programmerHello : ∀ p, DecAgrees .programmerHello (Src.decode_programmerHello p) p := by dec_agree Src.decode_programmerHello Kind.programmerHello
 theorem src_decode_startFirmwareUpgrade : ∀ p, DecAgrees .startFirmwareUpgrade (Src.decode_startFirmwareUpgrade p) p := by dec_agree Src.decode_startFirmwareUpgrade Kind.startFirmwareUpgrade
 theorem src_decode_ack : ∀ p, DecAgrees .ack (Src.decode_ack p) p := by dec_agree Src.decode_ack Kind.ack
+theorem src_decode_data : ∀ p, DecAgrees .data (Src.decode_data p) p := by dec_agree Src.decode_data Kind.data
 theorem src_decode_configuratorHello : ∀ p, DecAgrees .configuratorHello (Src.decode_configuratorHello p) p := by dec_agree Src.decode_configuratorHello Kind.configuratorHello
 theorem src_decode_bcmChange : ∀ p, DecAgrees .bcmChange (Src.decode_bcmChange p) p := by dec_agree Src.decode_bcmChange Kind.bcmChange
 theorem src_decode_buttonPressed : ∀ p, DecAgrees .buttonPressed (Src.decode_buttonPressed p) p := by dec_agree Src.decode_buttonPressed Kind.buttonPressed
@@ -63,7 +70,7 @@ theorem src_decode_gatewayDiscover : ∀ p, DecAgrees .gatewayDiscover (Src.deco
 /-- all sixteen kinds at once (`Src.decodeK` is the translated decoder where there is one, the model's otherwise) -/
 theorem src_decodeK_agrees (k : Kind) (p : Packet) : DecAgrees k (Src.decodeK k p) p := by
   cases k
-  case data => exact DecAgrees.of_eq rfl
+  case data => exact src_decode_data p
   case message => exact DecAgrees.of_eq rfl
   case bootloaderHello => exact src_decode_bootloaderHello p
   case programmerHello => exact src_decode_programmerHello p
